@@ -82,46 +82,56 @@ def run(tier, seed):
     common.bind_repo()
     quick = tier == "quick"
     universe = "U_C14_Q" if quick else "U_C14"
-    nparts = 8
-    with ThreadPoolExecutor(nparts) as ex:
-        futs = [ex.submit(run_tlc, "MC_Context", cfg_text=cfg(universe, k, nparts, 1 if quick else 2, not quick, -1 if quick else 0),
-                          timeout=6000, workers=2, heap="3g") for k in range(nparts)]
-        parts = [f.result() for f in futs]
-    res = parts[0]
-    for r in parts[1:]:
-        res.violation = res.violation or r.violation
-        res.generated += r.generated
-        res.distinct += r.distinct
-        res.emits.extend(r.emits)
-        res.wall_s = max(res.wall_s, r.wall_s)
-    if res.violation:
-        raise common.MachineryFailure("MC_Context violates %s on its own model:\n%s" % (
-            res.violation["name"], res.violation["trace_text"][-2500:]))
-    v.add_tlc(res, "MC_Context U=%s (x%d processes)" % (universe, nparts))
-    univ = res.univ
+    nparts = 8 if quick else 48
     gens = [rp.GEN_OFF, None]
-    cases = sorted(res.emits, key=lambda c: c["d"])
-    chunks = [cases[i:i + 200] for i in range(0, len(cases), 200)]
-    mism = []
-    n = 0
+    univ = None
     ctx = multiprocessing.get_context("fork")
-    with ctx.Pool(14, initializer=_winit, initargs=(univ, gens)) as pool:
-        for k, out in pool.imap_unordered(_wrun, chunks):
-            n += k * len(gens)
-            mism.extend(out)
-    v.cov["traces_validated_against_impl"] += n
-    for c in cases:
-        v.count_case((c["d"], tuple(c["raw"]), tuple(c["pre"]), tuple(c["post"])),
-                     nontrivial=len(c["pre"]) + len(c["post"]) > 0 and len(c["raw"]) >= 2)
-    for c in cases[:: max(1, len(cases) // 3)][:3]:
-        v.sample({"direction": "spec->code", "declaration": univ[c["d"] - 1]["prog"], "raw": c["raw"], "pre": c["pre"],
-                  "post": c["post"], "spec_plain": c["u1"]["st"], "spec_padded": c["u2"]["st"], "open_ended": c["u1"]["open"]})
-    v.cov["executions_differing_from_spec"] = len(mism)
-    todo = mism[:400]
-    if todo:
-        judged = pp.judge_cases(v, univ, [], gens, OWNED, "Trace_Packet on %d recorded pairs differing from the specification" % len(todo),
-                                c01=False, extra_records=[(m["rec"], {"d": m["d"], "gen": m["gen"], "extra": m["extra"]}) for m in todo])
-        pp.decide(v, judged, OWNED)
+    total = 0
+    for w0 in range(0, nparts, 8):
+        ks = list(range(w0, min(nparts, w0 + 8)))
+        with ThreadPoolExecutor(len(ks)) as ex:
+            futs = [ex.submit(run_tlc, "MC_Context", cfg_text=cfg(universe, k, nparts, 1, not quick, -1 if quick else 0),
+                              timeout=6000, workers=2, heap="3g") for k in ks]
+            parts = [f.result() for f in futs]
+        res = parts[0]
+        for r in parts[1:]:
+            res.violation = res.violation or r.violation
+            res.generated += r.generated
+            res.distinct += r.distinct
+            res.emits.extend(r.emits)
+            res.wall_s = max(res.wall_s, r.wall_s)
+            res.univ = res.univ or r.univ
+        if res.violation:
+            raise common.MachineryFailure("MC_Context violates %s on its own model:\n%s" % (
+                res.violation["name"], res.violation["trace_text"][-2500:]))
+        univ = univ or res.univ
+        v.add_tlc(res, "MC_Context U=%s (processes Part=%d..%d of %d)" % (universe, ks[0], ks[-1], nparts))
+        cases = sorted(res.emits, key=lambda c: c["d"])
+        total += len(cases)
+        chunks = [cases[i:i + 200] for i in range(0, len(cases), 200)]
+        mism = []
+        n = 0
+        with ctx.Pool(14, initializer=_winit, initargs=(univ, gens)) as pool:
+            for k, out in pool.imap_unordered(_wrun, chunks):
+                n += k * len(gens)
+                mism.extend(out)
+        v.cov["traces_validated_against_impl"] += n
+        for c in cases:
+            v.count_case((c["d"], tuple(c["raw"]), tuple(c["pre"]), tuple(c["post"])),
+                         nontrivial=len(c["pre"]) + len(c["post"]) > 0 and len(c["raw"]) >= 2)
+        for c in cases[:: max(1, len(cases) // 3)][:3]:
+            v.sample({"direction": "spec->code", "declaration": univ[c["d"] - 1]["prog"], "raw": c["raw"], "pre": c["pre"],
+                      "post": c["post"], "spec_plain": c["u1"]["st"], "spec_padded": c["u2"]["st"], "open_ended": c["u1"]["open"]})
+        v.cov["executions_differing_from_spec"] = v.cov.get("executions_differing_from_spec", 0) + len(mism)
+        todo = mism[:400]
+        if todo:
+            judged = pp.judge_cases(v, univ, [], gens, OWNED, "Trace_Packet on %d recorded pairs differing from the specification" % len(todo),
+                                    c01=False, extra_records=[(m["rec"], {"d": m["d"], "gen": m["gen"], "extra": m["extra"]}) for m in todo])
+            pp.decide(v, judged, OWNED)
+        if len(v.violations) >= 50:
+            break
+    if total == 0:
+        raise common.MachineryFailure("MC_Context emitted nothing")
     # random declarations and contexts
     from bind import randdecl, declgen, trace_packet as tp
     rnd = random.Random(seed)
